@@ -56,6 +56,10 @@ def trunc_cases(run, name):
         "context-scheme": (lambda te: CryptContext(schemes=[name, "md5_crypt"], **{f"{name}__truncate_error": te}, **{f"{name}__{k}": v for k, v in kw.items()}), "ctx"),
         "context-string": (lambda te: CryptContext(schemes=[name], truncate_error="true" if te else "false", **{f"{name}__{k}": v for k, v in kw.items()}), "ctx"),
     }
+    # the policy set twice: the later setting decides (a copy of a strict copy can be lax again, and the reverse)
+    sites["hasher.using-twice"] = (lambda te: h.using(truncate_error=not te).using(truncate_error=te, **kw), None)
+    sites["hasher.using-twice-string"] = (lambda te: h.using(truncate_error=not te, **kw).using(truncate_error="true" if te else "false"), None)
+    sites["context-over-configured-hasher"] = (lambda te: CryptContext(schemes=[h.using(truncate_error=not te, **kw)], truncate_error=te), "ctx")
     widths = [1, 2] if name == "lmhash" else [1, 2, 3, 4]
     deltas = [-1, 0, 1, 2, 3, 9] if run.tier == "quick" else [-3, -2, -1, 0, 1, 2, 3, 4, 7, 9, 30]
     for site, (mk, kind) in sites.items():
@@ -280,9 +284,11 @@ def nul_cases(run, names):
         if not H.usable(name):
             continue
         hh = H.apply(h, cheap(h))
-        body = H.pw_bytes(rng, 21, "ascii")
-        for pos in range(0, 21 if run.tier == "thorough" else 21, 1 if run.tier == "thorough" else 2):
-            for total in (pos + 1, 21):
+        body = H.pw_bytes(rng, 130, "ascii")
+        # positions in a short password, and around / beyond the truncation limit of the truncating formats (a NUL in the ignored tail is still a NUL)
+        positions = list(range(0, 21, 1 if run.tier == "thorough" else 2)) + [55, 56, 63, 64, 70, 71, 72, 73, 74, 80, 100, 127, 128, 129]
+        for pos in positions:
+            for total in (pos + 1, 21 if pos < 21 else 130):
                 raw = body[:pos] + b"\x00" + body[pos + 1:total]
                 for form, pw in (("bytes", raw), ("text", raw.decode())):
                     w = dict(hasher=name, password=pw, nul_at=pos)
